@@ -11,6 +11,7 @@ import (
 	"verif/tools/internal/absint"
 	"verif/tools/internal/core"
 	"verif/tools/internal/ssax"
+	"verif/tools/internal/tables"
 )
 
 func init() { register("C19", "other", checkC19) }
@@ -206,12 +207,43 @@ func checkC19(c *Ctx) *core.Result {
 			r.OK("D4", env.tabs.HexMapVar, "hex table = digit values for 0-9A-Fa-f, 256 elsewhere (256 entries)", "-", "literal extraction")
 		}
 		// the decoder must index exactly this table
+		// (in the decoder itself, in a helper it calls, or in a function value it takes
+		// from a constant table — `notation.digitValue(ch)`)
 		uses := false
-		for _, b := range decode.Blocks {
-			for _, ins := range b.Instrs {
-				if ia, ok := ins.(*ssa.IndexAddr); ok {
-					if g := globalOf(ia.X); g != nil && g.Name() == env.tabs.HexMapVar {
-						uses = true
+		group := map[*ssa.Function]bool{decode: true}
+		for round := 0; round < 2; round++ {
+			for fn := range group {
+				for _, ci := range ssax.Calls(fn) {
+					if cal := ci.Common().StaticCallee(); cal != nil && p.InModule(cal) {
+						group[cal] = true
+					}
+				}
+				for _, b := range fn.Blocks {
+					for _, ins := range b.Instrs {
+						var g *ssa.Global
+						switch x := ins.(type) {
+						case *ssa.IndexAddr:
+							g = globalOf(x.X)
+						case *ssa.UnOp:
+							g = globalOf(x.X)
+						}
+						if g == nil {
+							continue
+						}
+						if v, ok := env.closedVar(g.Name()); ok {
+							funcsOfVal(v, group, 0)
+						}
+					}
+				}
+			}
+		}
+		for fn := range group {
+			for _, b := range fn.Blocks {
+				for _, ins := range b.Instrs {
+					if ia, ok := ins.(*ssa.IndexAddr); ok {
+						if g := globalOf(ia.X); g != nil && g.Name() == env.tabs.HexMapVar {
+							uses = true
+						}
 					}
 				}
 			}
@@ -827,4 +859,29 @@ func emptySubjectReturn(c *Ctx, black, match *ssa.Function, ret *ssa.Return, mem
 		}
 	}
 	return false
+}
+
+// funcsOfVal collects the function values inside a closed table value.
+func funcsOfVal(v tables.Val, out map[*ssa.Function]bool, depth int) {
+	if depth > 4 {
+		return
+	}
+	switch x := v.(type) {
+	case *ssa.Function:
+		if x != nil {
+			out[x] = true
+		}
+	case *tables.Slice:
+		if x != nil {
+			for _, e := range x.Elems {
+				funcsOfVal(e, out, depth+1)
+			}
+		}
+	case *tables.Struct:
+		if x != nil {
+			for _, e := range x.F {
+				funcsOfVal(e, out, depth+1)
+			}
+		}
+	}
 }
